@@ -26,22 +26,22 @@ structure J (P : Prog) (env : Nat → Inp) (r : Nat) (s : State) : Prop where
   spec : ∀ c v, c < r → s.memos c ≠ none → (semRes P env c).sp = some v → s.smemos c ≠ none
 
 /-- frame: the sub-engine for ranks `< r` leaves everything of rank `≥ r` alone -/
-structure Ext (r : Nat) (s t : State) : Prop where
+structure Ext1 (r : Nat) (s t : State) : Prop where
   cur : t.cur = s.cur
   inp : t.inp = s.inp
   above_m : ∀ q, r ≤ q → t.memos q = s.memos q
   above_s : ∀ c, r ≤ c → t.slots c = s.slots c
   above_sm : ∀ c, r ≤ c → t.smemos c = s.smemos c
 
-theorem Ext.refl (r s) : Ext r s s := ⟨rfl, rfl, fun _ _ => rfl, fun _ _ => rfl, fun _ _ => rfl⟩
+theorem Ext1.refl (r s) : Ext1 r s s := ⟨rfl, rfl, fun _ _ => rfl, fun _ _ => rfl, fun _ _ => rfl⟩
 
-theorem Ext.trans {r s t u} (h1 : Ext r s t) (h2 : Ext r t u) : Ext r s u :=
+theorem Ext1.trans {r s t u} (h1 : Ext1 r s t) (h2 : Ext1 r t u) : Ext1 r s u :=
   ⟨h2.cur.trans h1.cur, h2.inp.trans h1.inp,
    fun q hq => (h2.above_m q hq).trans (h1.above_m q hq),
    fun q hq => (h2.above_s q hq).trans (h1.above_s q hq),
    fun q hq => (h2.above_sm q hq).trans (h1.above_sm q hq)⟩
 
-theorem Ext.weaken {r r' s t} (h : Ext r s t) (hr : r ≤ r') : Ext r' s t :=
+theorem Ext1.weaken {r r' s t} (h : Ext1 r s t) (hr : r ≤ r') : Ext1 r' s t :=
   ⟨h.cur, h.inp, fun q hq => h.above_m q (Nat.le_trans hr hq), fun q hq => h.above_s q (Nat.le_trans hr hq),
    fun q hq => h.above_sm q (Nat.le_trans hr hq)⟩
 
@@ -51,7 +51,7 @@ theorem J.weaken {P env r r' s} (h : J P env r' s) (hr : r ≤ r') : J P env r s
    fun c sm hc => h.smemo c sm (Nat.lt_of_lt_of_le hc hr), fun c v hc => h.spec c v (Nat.lt_of_lt_of_le hc hr)⟩
 
 /-- the invariant for higher ranks survives a call of the sub-engine -/
-theorem J.lift {P env r r' s t} (h : J P env r' s) (ht : J P env r t) (he : Ext r s t) : J P env r' t := by
+theorem J.lift {P env r r' s t} (h : J P env r' s) (ht : J P env r t) (he : Ext1 r s t) : J P env r' t := by
   refine ⟨ht.inp, ht.pn, ?_, ?_, ?_, ?_, ?_⟩
   · intro q m hq hm
     by_cases hlt : q < r
@@ -86,7 +86,7 @@ theorem J.lift {P env r r' s t} (h : J P env r' s) (ht : J P env r t) (he : Ext 
 /-- what the sub-engine (ranks `< r`) guarantees for a request that does not panic -/
 def FetchOk (P : Prog) (env : Nat → Inp) (r : Nat) (fe : FetchFn) : Prop :=
   ∀ s q, q < r → J P env r s → (fe s q).1.panic = none →
-    J P env r (fe s q).1 ∧ Ext r s (fe s q).1 ∧ (fe s q).2.val = sem P env q
+    J P env r (fe s q).1 ∧ Ext1 r s (fe s q).1 ∧ (fe s q).2.val = sem P env q
 
 /-! ### panics are sticky: a request that ends without panic never panicked -/
 
@@ -170,7 +170,7 @@ theorem J_lockEq {P env r s t c} (h : J P env r s) (he : LockEq c s t) : J P env
   · intro c' sm hc hsm; rw [he.smemos] at hsm; rw [he.cur]; exact h.smemo c' sm hc hsm
   · intro c' v hc hm hs; rw [he.memos] at hm; rw [he.smemos]; exact h.spec c' v hc hm hs
 
-theorem Ext_lockEq {r s t c} (hc : c < r) (he : LockEq c s t) : Ext r s t :=
+theorem Ext_lockEq {r s t c} (hc : c < r) (he : LockEq c s t) : Ext1 r s t :=
   ⟨he.cur, he.inp, fun q _ => by rw [he.memos], fun c' hc' => he.other c' (by omega),
    fun c' _ => by rw [he.smemos]⟩
 
@@ -214,7 +214,7 @@ theorem runSpecBody {P : Prog} (hP : Wf P) {s : State} {c : Nat} {sl : Slot} (hs
 
 theorem fetchSpec_ok {P : Prog} (hP : Wf P) {env r s c sl} (h : J P env r s) (hc : c < r)
     (hsl : s.slots c = some sl) (hpn : (fetchSpec P.spec s c).1.panic = none) :
-    J P env r (fetchSpec P.spec s c).1 ∧ Ext r s (fetchSpec P.spec s c).1 ∧
+    J P env r (fetchSpec P.spec s c).1 ∧ Ext1 r s (fetchSpec P.spec s c).1 ∧
     (fetchSpec P.spec s c).2.val = semSpec P env c := by
   have ht : touchMemos s c = lockSlot s c sl := by simp [touchMemos, hsl]
   have hL0 := lockEq_lockSlot hsl
@@ -313,7 +313,7 @@ theorem run_ok {P : Prog} {env : Nat → Inp} {r : Nat} {fe : FetchFn} (hP : Wf 
       s.memos r = none →
       (runBody fe (fetchSpec P.spec) (some r) b s f).1.panic = none →
       J P env r (runBody fe (fetchSpec P.spec) (some r) b s f).1 ∧
-      Ext (r + 1) s (runBody fe (fetchSpec P.spec) (some r) b s f).1 ∧
+      Ext1 (r + 1) s (runBody fe (fetchSpec P.spec) (some r) b s f).1 ∧
       (runBody fe (fetchSpec P.spec) (some r) b s f).1.memos r = none ∧
       (runBody fe (fetchSpec P.spec) (some r) b s f).2.2 =
         (evalX r (semDep P env) (semIdent P env) (specBodyVal P env) b ts sp none).val ∧
@@ -331,7 +331,7 @@ theorem run_ok {P : Prog} {env : Nat → Inp} {r : Nat} {fe : FetchFn} (hP : Wf 
   induction hb with
   | ret v _ =>
     intro s f ts sp hJ hms hmp hm _
-    exact ⟨hJ, Ext.refl _ _, hm, rfl, hms, hmp⟩
+    exact ⟨hJ, Ext1.refl _ _, hm, rfl, hms, hmp⟩
   | inp i k _ ih =>
     intro s f ts sp hJ hms hmp hm hpn
     simp only [runBody, readDep] at hpn ⊢
@@ -476,7 +476,7 @@ theorem run_ok {P : Prog} {env : Nat → Inp} {r : Nat} {fe : FetchFn} (hP : Wf 
         · intro c hc hmm; rw [tmemos] at hmm; rw [tslots c (by omega)]; exact hJ.slot c hc hmm
         · intro c sm hc hsm; rw [tsm c (by omega)] at hsm; rw [tcur]; exact hJ.smemo c sm hc hsm
         · intro c v' hc hmm hs; rw [tmemos] at hmm; rw [tsm c (by omega)]; exact hJ.spec c v' hc hmm hs
-      have hEt : Ext (r + 1) s t :=
+      have hEt : Ext1 (r + 1) s t :=
         ⟨tcur, tinp, fun q _ => by rw [tmemos], fun c hc => tslots c (by omega), fun c hc => tsm c (by omega)⟩
       obtain ⟨i1, i2, i3, i4, i5, i6⟩ := ih t { f with ts := some s.nextGen } (some (idk, v)) none hJt
         (by simp only [MirrorSlot]; exact ⟨⟨_, tslotr, rfl, rfl⟩, rfl⟩)
@@ -519,7 +519,7 @@ theorem run_ok {P : Prog} {env : Nat → Inp} {r : Nat} {fe : FetchFn} (hP : Wf 
           · intro c hc hmm; rw [hmemos] at hmm; rw [a4]; exact hJ.slot c hc hmm
           · intro c sm hc hsm; rw [hother c (by omega)] at hsm; rw [a2]; exact hJ.smemo c sm hc hsm
           · intro c v' hc hmm hs; rw [hmemos] at hmm; rw [hother c (by omega)]; exact hJ.spec c v' hc hmm hs
-        have hEt : Ext (r + 1) s (installAssigned s f r v).1 :=
+        have hEt : Ext1 (r + 1) s (installAssigned s f r v).1 :=
           ⟨a2, hinp, fun q _ => by rw [hmemos], fun c _ => by rw [a4], fun c hc => hother c (by omega)⟩
         obtain ⟨i1, i2, i3, i4, i5, i6⟩ := ih (installAssigned s f r v).1 (installAssigned s f r v).2 ts
           (specNext none none v) hJt
@@ -550,7 +550,7 @@ theorem J_emit {P env r s} (h : J P env r s) (e : Ev) : J P env r (emit s e) :=
 theorem execute_ok {P : Prog} {env : Nat → Inp} {r : Nat} {fe : FetchFn} (hP : Wf P)
     (hfe : FetchOk P env r fe) (hst : RelF Sticky fe) {s : State} (hJ : J P env (r + 1) s)
     (hm : s.memos r = none) (hpn : (execute fe P s r none).1.panic = none) :
-    J P env (r + 1) (execute fe P s r none).1 ∧ Ext (r + 1) s (execute fe P s r none).1 ∧
+    J P env (r + 1) (execute fe P s r none).1 ∧ Ext1 (r + 1) s (execute fe P s r none).1 ∧
     (execute fe P s r none).2.val = sem P env r := by
   unfold execute at hpn ⊢
   simp only [oldSeed] at hpn ⊢
@@ -621,7 +621,7 @@ theorem execute_ok {P : Prog} {env : Nat → Inp} {r : Nat} {fe : FetchFn} (hP :
 theorem fetchStep_ok {P : Prog} {env : Nat → Inp} {r : Nat} {fe : FetchFn} {mc : McaFn} (hP : Wf P)
     (hfe : FetchOk P env r fe) (hst : RelF Sticky fe) {s : State} (hJ : J P env (r + 1) s)
     (hpn : (fetchStep fe mc P s r).1.panic = none) :
-    J P env (r + 1) (fetchStep fe mc P s r).1 ∧ Ext (r + 1) s (fetchStep fe mc P s r).1 ∧
+    J P env (r + 1) (fetchStep fe mc P s r).1 ∧ Ext1 (r + 1) s (fetchStep fe mc P s r).1 ∧
     (fetchStep fe mc P s r).2.val = sem P env r := by
   unfold fetchStep at hpn ⊢
   cases hm : s.memos r with
@@ -631,7 +631,7 @@ theorem fetchStep_ok {P : Prog} {env : Nat → Inp} {r : Nat} {fe : FetchFn} {mc
   | some m =>
     obtain ⟨hva, hval⟩ := hJ.memo r m (Nat.lt_succ_self r) hm
     simp only [hm, hva, if_true]
-    exact ⟨hJ, Ext.refl _ _, hval⟩
+    exact ⟨hJ, Ext1.refl _ _, hval⟩
 
 theorem eng_ok {P : Prog} (hP : Wf P) (env : Nat → Inp) : ∀ r, FetchOk P env r (eng P r).1 := by
   intro r
